@@ -766,8 +766,15 @@ def _arg_combine(data, axis, argfunc, keepdims=False):
     arg = data["arg"]
     if axis is None:
         local_args = argfunc(vals, axis=axis, keepdims=keepdims)
-        vals = vals.ravel()[local_args]
-        arg = arg.ravel()[local_args]
+        flat_vals, flat_arg = vals.ravel(), arg.ravel()
+        vals = flat_vals[local_args]
+        arg = flat_arg[local_args]
+        # NumPy returns the first occurrence in C order. Several blocks can hold
+        # the extreme value and the first block is not necessarily the one with
+        # the smallest flat index.
+        ties = flat_vals == flat_vals[np.ravel(local_args)[0]]
+        if ties.sum() > 1:
+            arg = (arg * 0) + flat_arg[ties].min()
     else:
         local_args = argfunc(vals, axis=axis)
         inds = list(np.ogrid[tuple(map(slice, local_args.shape))])
